@@ -1,4 +1,6 @@
 """C24 — installed-package CONTENTS files round-trip and are replaced atomically."""
+import errno
+import gc
 import os
 import resource
 import shutil
@@ -17,6 +19,8 @@ OBLIGATIONS = [
     "Pkgcore.C24.flush_touches_nothing_else",
     "Pkgcore.C24.atomic_replace_prefix",
     "Pkgcore.C24.parseLine_render",
+    "Pkgcore.C24.flush_abort_keeps_old",
+    "Pkgcore.C24.history_flush_roundtrip",
 ]
 TRUSTED = [
     "str.split(' ')/' '.join, posixpath.normpath, '%x'/rjust, str(int)/int() are re-expressed in Lean (splitOn, joinWith, normpath, hexPad, renderInt, "
@@ -35,9 +39,14 @@ RULE = ("contents sets of 0-12 entries built through the public fs/ContentsFile 
         "white space (tab, \\x0b, \\x0c, \\x1c, \\x85, \\xa0, U+2028), '->' fragments, accented/CJK/astral characters; ~4% of sets contain an entry of a "
         "known-finding class (line break in a path, '->' token in a symlink location). Each set is flushed over the previous one, re-read, compared; "
         "a subset is crashed (fork + _exit at every audited operation, SIGXFSZ in the middle of the data write). "
+        "Long-lived objects: a loaded (or kept) ContentsFile is driven through histories of 1-4 mutating calls per round (add, remove, del, discard by "
+        "object/path, clear, update, difference_update incl. with itself, intersection_update, symmetric_difference_update), flushed, re-read with a "
+        "fresh object, for 1-3 rounds. Failing flushes over an existing file: an entry the writer cannot render (unknown type, file without md5 via "
+        "update(), link without mtime, lone surrogate in a path), an exception raised by the k-th write (RuntimeError, KeyboardInterrupt, MemoryError, "
+        "OSError), an error return from each os-level call: the old file must survive. "
         "non-trivial = at least 2 entries and a path with a blank, '->' or non-ASCII character")
 
-_STATE = {"on": False, "root": None, "events": [], "crash_at": None}
+_STATE = {"on": False, "root": None, "events": [], "crash_at": None, "faults": {}, "persist": None}
 _HOOKED = [False]
 
 
@@ -65,24 +74,38 @@ def _hook(event, args):
             rec = (event[3:],) + tuple(a for a in args[:2])
     except Exception:
         return
+    # (no injected fault is raised inside the try above)
     if rec is None:
         return
     if not any(isinstance(a, str) and a.startswith(st["root"]) for a in rec[1:]):
         return
-    if st["crash_at"] is not None and st["crash_at"] == len(st["events"]):
+    idx = len(st["events"])
+    if st["crash_at"] is not None and st["crash_at"] == idx:
         os._exit(99)                      # crash immediately before this operation
+    act = st["faults"].get(idx)
+    if act is None and st["persist"] and rec[0] in st["persist"]:
+        act = "oserror"
+    if act is not None:
+        # the operation fails with an error return: the exception raised here aborts the call and surfaces as its OSError
+        st["events"].append(("!" + rec[0],) + rec[1:])
+        if act == "persist":
+            st["persist"] = {rec[0]}      # the condition stays (ENOSPC, EIO): every later call of this kind fails too
+        raise OSError(errno.ENOSPC, "injected fault", rec[1] if isinstance(rec[1], str) else None)
     st["events"].append(rec)
 
 
-def trace_on(root, crash_at=None):
+def trace_on(root, crash_at=None, faults=None):
+    """record os-level operations below `root`; crash_at=i: _exit before the i-th one; faults={i: "oserror"|"persist"}: the i-th
+    one returns an error (once / from then on for that kind of call)"""
     if not _HOOKED[0]:
         sys.addaudithook(_hook)
         _HOOKED[0] = True
-    _STATE.update(on=True, root=root, events=[], crash_at=crash_at)
+    _STATE.update(on=True, root=root, events=[], crash_at=crash_at, faults=dict(faults or {}), persist=None)
 
 
 def trace_off():
     _STATE["on"] = False
+    _STATE["persist"] = None
     return list(_STATE["events"])
 
 
@@ -264,6 +287,7 @@ RAW_TEXTS = [
 
 def run(ctx):
     from pkgcore.fs import fs
+    from pkgcore.fs.contents import contentsSet
     from pkgcore.vdb.contents import ContentsFile
 
     rng = ctx.rng
@@ -395,6 +419,218 @@ def run(ctx):
                 detail = (f"reading back raised {rerr}" if rerr is not None else
                           f"read back {[e for e in got if e not in exp][:3]} instead of {[e for e in exp if e not in got][:3]}")
                 ctx.violation(case, detail, finding="C24-linebreak-in-path" if brk else "C24-symlink-arrow-token" if arrow else None)
+
+        # ---------------- mutation histories on long-lived objects, flush, re-read with a fresh object
+        def mentry(d):
+            o = build(fs, d)
+            return [d[0], o.location] + ([str(d[2]), str(int(d[3]))] if d[0] == "obj" else [d[2], str(int(d[3]))] if d[0] == "sym" else [])
+
+        def gen_entry(avoid=()):
+            for _ in range(50):
+                ds = gen_set(rng)
+                ds = [d for d in ds if os.path.normpath(d[1]) not in avoid]
+                if ds:
+                    return rng.choice(ds)
+            return ("dir", "/fallback-%d" % rng.randrange(10 ** 6))
+        hreqs, hmeta = [], []
+        for hidx in range(ctx.n(120, 5000)):
+            os.path.exists(path) and os.unlink(path)
+            init = gen_set(rng)
+            c0 = ContentsFile(path, mutable=True, create=True)
+            for d in init:
+                c0.add(build(fs, d))
+            c0.flush()
+            cur = {build(fs, d).location: d for d in init}           # oracle: location -> descriptor
+            obj = c0 if rng.random() < 0.4 else ContentsFile(path, mutable=True)     # keep the writer, or load afresh
+            base_entries = [mentry(d) for d in cur.values()]
+            all_ops, calls = [], []
+            for rnd in range(rng.choice([1, 1, 2, 3])):
+                for _ in range(rng.choice([1, 1, 2, 4])):
+                    present = list(cur)
+                    k = rng.choice(["add", "replace", "remove", "del", "discard_obj", "discard_str", "discard_absent", "clear", "update",
+                                    "difference", "difference_self", "intersection", "symdiff"])
+                    if k in ("remove", "del", "discard_obj", "discard_str", "replace") and not present:
+                        k = "add"
+                    if k == "add":
+                        d = gen_entry(avoid=cur)
+                        o = build(fs, d)
+                        obj.add(o); cur[o.location] = d
+                        all_ops.append(["add", mentry(d)])
+                    elif k == "replace":
+                        loc = rng.choice(present)
+                        d = rng.choice([("dir", loc), ("fif", loc), ("obj", loc, gen_md5(rng), gen_mtime(rng)), ("sym", loc, "t -> x", 5)])
+                        obj.add(build(fs, d)); cur[loc] = d
+                        all_ops.append(["add", mentry(d)])
+                    elif k in ("remove", "del", "discard_obj", "discard_str"):
+                        loc = rng.choice(present)
+                        if k == "remove":
+                            obj.remove(build(fs, cur[loc]))
+                        elif k == "del":
+                            del obj[loc]
+                        elif k == "discard_obj":
+                            obj.discard(build(fs, cur[loc]))
+                        else:
+                            obj.discard(loc)
+                        del cur[loc]
+                        all_ops.append(["discard", loc])
+                    elif k == "discard_absent":
+                        obj.discard("/not/there-%d" % rng.randrange(100))
+                        all_ops.append(["discard", "/not/there"])
+                    elif k == "clear":
+                        obj.clear(); cur.clear()
+                        all_ops.append(["clear"])
+                    elif k == "update":
+                        ds = [gen_entry() for _ in range(rng.randrange(0, 4))]
+                        obj.update([build(fs, d) for d in ds])
+                        for d in ds:
+                            cur[build(fs, d).location] = d
+                        all_ops.append(["update", [mentry(d) for d in ds]])
+                    elif k == "difference_self":
+                        obj.difference_update(obj); cur.clear()
+                        all_ops.append(["clear"])
+                    elif k in ("difference", "intersection"):
+                        locs = rng.sample(present, rng.randrange(0, len(present) + 1)) if present else []
+                        other = contentsSet([build(fs, cur[l]) for l in locs] + [fs.fsDir("/other-%d" % rng.randrange(50), strict=False)])
+                        if k == "difference":
+                            obj.difference_update(other)
+                            for l in locs:
+                                cur.pop(l, None)
+                        else:
+                            obj.intersection_update(other)
+                            for l in list(cur):
+                                if l not in locs:
+                                    del cur[l]
+                        all_ops.append([k, [o.location for o in other]])
+                    else:
+                        locs = rng.sample(present, rng.randrange(0, len(present) + 1)) if present else []
+                        newd = [gen_entry(avoid=cur) for _ in range(rng.randrange(0, 3))]
+                        od = {build(fs, d).location: d for d in [cur[l] for l in locs] + newd}
+                        obj.symmetric_difference_update(contentsSet([build(fs, d) for d in od.values()]))
+                        for l, d in od.items():
+                            if l in cur:
+                                del cur[l]
+                            else:
+                                cur[l] = d
+                        all_ops.append(["symdiff", [mentry(d) for d in od.values()]])
+                    calls.append(k)
+                try:
+                    obj.flush()
+                    ferr = None
+                except Exception as e:
+                    ferr = f"{type(e).__name__}: {e}"
+                text = read_text() if os.path.exists(path) else None
+                got, rerr = read_set()
+                exp = expected_of([build(fs, d) for d in cur.values()])
+                hreqs.append({"cmd": "c24.history", "initial": base_entries, "ops": [list(o) for o in all_ops]})
+                hmeta.append(({"history": list(calls), "round": rnd, "loaded_object": obj is not c0, "initial": [list(d) for d in init],
+                               "ops": [list(o) for o in all_ops]}, text, got, rerr, exp, ferr, has_break(cur.values()) or has_arrow(cur.values())))
+        for (case, text, got, rerr, exp, ferr, special), rep in zip(hmeta, ctx.model(hreqs)):
+            ctx.case(case, len(case["history"]) >= 2, key=repr(case))
+            for k in case["history"]:
+                ctx.count("op_" + k)
+            ctx.count("history_on_" + ("loaded" if case["loaded_object"] else "kept") + "_object")
+            if ferr is not None:
+                ctx.violation(case, f"flush() after a history of set operations raised {ferr}")
+                continue
+            if rep == "bad-op":
+                ctx.mismatch(case, "driver rejected the history request")
+                continue
+            if rep["text"] != text:
+                ctx.mismatch(case, f"CONTENTS after the history differs from the model's text for the model's final set: {str(text)[:160]!r} vs {rep['text'][:160]!r}")
+            if special:
+                continue
+            if rerr is not None or got != exp:
+                ctx.violation(case, "after flush() a fresh ContentsFile does not show the set the object holds: "
+                              f"{'raised ' + rerr if rerr else ''}extra {[e for e in (got or []) if e not in exp][:3]}, missing {[e for e in exp if e not in (got or [])][:3]}")
+
+        # ---------------- flushes that fail: the previous file must survive
+        class fsUnknown(fs.fsBase):
+            __slots__ = ()
+
+        def poison(kind, loc):
+            if kind == "unknown-type":
+                return fsUnknown(loc, strict=False)
+            if kind == "file-without-md5":
+                return fs.fsFile(loc, chksums={"sha1": 1}, mtime=5, strict=False)
+            if kind == "link-without-mtime":
+                return fs.fsSymlink(loc, "target", strict=False)
+            return fs.fsDir(loc + "\udc80", strict=False)          # lone surrogate: cannot be encoded when the text reaches the file
+        import pkgcore.vdb.contents as cmod
+        RealAWF = cmod.AtomicWriteFile
+        freqs, fmeta = [], []
+        fault_sets = [s for s, _ in sets if s and not has_break(s) and not has_arrow(s)][: ctx.n(30, 400)]
+        for fi, descs in enumerate(fault_sets):
+            os.path.exists(path) and os.unlink(path)
+            os.path.exists(tmp_path) and os.unlink(tmp_path)
+            c = ContentsFile(path, mutable=True, create=True)
+            for d in [("dir", "/previous"), ("obj", "/previous/file", 1, 1), ("sym", "/previous/l", "file", 2)]:
+                c.add(build(fs, d))
+            c.flush()
+            old_text, (old_set, _) = read_text(), read_set()
+            objs = [build(fs, d) for d in descs]
+            exp = expected_of(objs)
+            locs = sorted(o.location for o in objs)
+            mode = ["poison", "write-raises", "os-error"][fi % 3]
+            c = ContentsFile(path, mutable=True, create=True)
+            c.update(objs)
+            case = {"failing_flush": mode, "set_size": len(descs)}
+            raised = None
+            if mode == "poison":
+                kind = rng.choice(["unknown-type", "file-without-md5", "link-without-mtime", "surrogate-path"])
+                mid = locs[len(locs) // 2] + "~poison"           # sorts into the middle of the set
+                c.update([poison(kind, mid)])
+                case["poison"] = kind
+                trace_on(root)
+            elif mode == "write-raises":
+                k = rng.randrange(0, len(objs))
+                exc = rng.choice([lambda: RuntimeError("injected"), KeyboardInterrupt, MemoryError, lambda: OSError(errno.ENOSPC, "injected")])
+                case.update(at_write=k, exception=type(exc()).__name__)
+
+                class FaultyAWF(RealAWF):
+                    __slots__ = ("_n",)
+
+                    def write(self, data, _k=k, _exc=exc):
+                        n = getattr(self, "_n", 0)
+                        self._n = n + 1
+                        if n == _k:
+                            raise _exc()          # a fresh exception object: nothing but the traceback keeps the file object alive
+                        return self.raw.write(data)
+                cmod.AtomicWriteFile = FaultyAWF
+                trace_on(root)
+            else:
+                j = rng.randrange(0, 4)                           # creat, chmod, chown, rename
+                case.update(error_at_operation=j)
+                trace_on(root, faults={j: "oserror"})
+            try:
+                c.flush()
+            except BaseException as e:
+                raised = type(e).__name__
+            finally:
+                gc.collect()                      # nothing of the failed flush may linger (its temp file goes when the object goes)
+                events = trace_off()
+                cmod.AtomicWriteFile = RealAWF
+            del c
+            after_text = read_text() if os.path.exists(path) else None
+            after_set, after_err = read_set()
+            ctx.case(case, True, key=repr((fi, case)))
+            ctx.count("failing_flush_" + mode)
+            ctx.count("failing_flush_raised_" + str(raised))
+            if raised is None and mode != "os-error":
+                ctx.mismatch(case, "the injected failure did not make flush() raise")
+            if raised is not None and after_text != old_text:
+                ctx.violation(case, f"flush() failed with {raised} but CONTENTS changed: {len(after_text or '')} chars instead of the previous {len(old_text)}"
+                              f" (first line now {(after_text or '').splitlines()[:1]})")
+            elif after_err is not None or after_set not in (old_set, exp):
+                ctx.violation(case, f"after a failed flush() a reader sees neither the old nor the new set ({after_err or 'different entries'})")
+            if os.path.exists(tmp_path):
+                ctx.note("a failed flush() left .update.CONTENTS behind")
+            if mode != "os-error" and raised is not None:
+                freqs.append({"cmd": "c24.abortops", "dir": root, "base": "CONTENTS", "written": []})
+                fmeta.append((case, events))
+        for (case, events), mops in zip(fmeta, ctx.model(freqs)):
+            want = [o for o in mops if o[0] not in ("write", "close")]
+            if [list(e) for e in events] != want:
+                ctx.mismatch(case, f"os-level operations of the failing flush {[list(e) for e in events]} differ from the model's abort sequence {want}")
 
         # ---------------- crash injection on the real code
         crash_sets = [s for s, _ in sets if not has_break(s) and not has_arrow(s) and s][: ctx.n(14, 120)]
